@@ -69,11 +69,20 @@ def run(ctx):
     evals = 0
     dist = {}
     reps = 2 if ctx.tier == "quick" else 8
+    nonsym = [0]
     for kind, norb, ne in [("rhf", 3, (1, 1)), ("rhf", 4, (2, 2)), ("uhf", 4, (2, 1)), ("uhf", 3, (2, 2)), ("ghf", 3, (2, 1)),
                            ("noci", 4, (2, 1)), ("noci", 3, (2, 2)), ("uhf", 3, (2, 0))]:
         for _ in range(reps):
             trial, wd, desc = trials.make(kind, rng, norb, ne)
             ham, plain = trials.make_ham(rng, norb, nchol=2, spin_dependent=(kind != "rhf"))
+            if _ % 2 == 1:
+                # "every Hamiltonian": a one-body matrix with an antisymmetric part (the repository's own tests use such matrices)
+                anti = np.array([[rng.randint(-8, 8) / 16.0 for _j in range(norb)] for _i in range(norb)])
+                anti = anti - anti.T
+                h_ns = np.array(plain["h1"]) + np.array([anti, anti if kind == "rhf" else -0.5 * anti])
+                plain = dict(plain, h1=h_ns)
+                ham = dict(ham, h1=jnp.array(h_ns))
+                nonsym[0] += 1
             hobj = hamiltonian.hamiltonian(norb)
             U = exact_orthogonal(rng, norb)
             dist[kind] = dist.get(kind, 0) + 1
@@ -136,7 +145,7 @@ def run(ctx):
                     spec_fail.append((kind, "local energies and force biases are unchanged when an already prepared Hamiltonian dictionary is rotated and re-prepared",
                                       {"norb": norb, "nelec": ne, "energy_before": str(e1), "energy_after": str(e3),
                                        "max_force_bias_change": float(np.abs(f1 - f3).max())}))
-                if kind in ("rhf", "uhf"):
+                if kind in ("rhf", "uhf") and _ % 2 == 0:      # (the Lean model is the estimator of a symmetric Hamiltonian)
                     plain_r = {"h0": plain["h0"], "h1": np.array([U.T @ plain["h1"][0] @ U, U.T @ plain["h1"][1] @ U]),
                                "chol": np.einsum("qi,gij,jp->gqp", U.T, np.array(plain["chol"]).reshape(-1, norb, norb), U).reshape(-1, norb * norb)}
                     if kind == "rhf":
